@@ -83,12 +83,10 @@ EXPORT int vwprintf_s(const wchar_t *restrict fmt, va_list ap) {
     }
 
 #if defined(HAVE_WCSSTR) || !defined(SAFECLIB_DISABLE_EXTENSIONS)
-    if (unlikely((p = wcsstr((wchar_t *)fmt, L"%n")))) {
-        if ((p - fmt == 0) || *(p - 1) != L'%') {
-            invoke_safe_str_constraint_handler("vwprintf_s: illegal %n", NULL,
-                                               EINVAL);
-            return -(EINVAL);
-        }
+    if (unlikely((p = safec_wfmt_find_n(fmt)) != NULL)) {
+        invoke_safe_str_constraint_handler("vwprintf_s: illegal %n", NULL,
+                                           EINVAL);
+        return -(EINVAL);
     }
 #elif defined(HAVE_WCSCHR)
     if (unlikely((p = wcschr(fmt, flen, L'n')))) {
